@@ -449,6 +449,14 @@ func (f *Frame) invEnv(li *loopInfo, phiVal func(*ssa.Phi) Val, st *State, vis m
 		}
 		v, cell, ok := f.resolveName(a, li)
 		if !ok {
+			// contract-level let definitions
+			if f.contract != nil {
+				for _, l := range f.contract.Lets {
+					if l.Name == a {
+						return substSXb(l.Term, f.invEnv(li, phiVal, st, vis), nil, old), true
+					}
+				}
+			}
 			return "", false
 		}
 		if cell != nil {
